@@ -2112,7 +2112,7 @@ class TestByTestResult(TestResult):
         )
 
     def _err_to_details(self, test, err, details):
-        if details:
+        if details is not None:
             return details
         return {"traceback": TracebackContent(err, test, capture_locals=self.tb_locals)}
 
